@@ -469,6 +469,21 @@ def exec (s : St) (dst : Option String) (cmd : String) (args : List String) : St
       | some d, some t => if sd.startsWith "seed=" then (s.bind d (.input (some t)), .ok "") else (s, .bad)
       | some d, none => failBind s (some d) .skip
       | _, _ => (s, .bad)
+  | "zero", [k] => match dst with
+      -- the zero value of a component struct: no state but the configuration fields, which are 0
+      | some d => (match k with
+          | "relu" => (s.bind d (.act .relu), .ok "")
+          | "sigmoid" => (s.bind d (.act .sigmoid), .ok "")
+          | "tanh" => (s.bind d (.act .tanh), .ok "")
+          | "leaky" => (s.bind d (.act (.leaky Scalar.zero)), .ok "")
+          | "softmax" => (s.bind d (.act (.softmax 0)), .ok "")
+          | "mse" => (s.bind d (.loss .mse), .ok "")
+          | "bce" => (s.bind d (.loss .bce), .ok "")
+          | "ce" => (s.bind d (.loss .ce), .ok "")
+          | "accuracy" => (({ s with accs := s.accs.push {} }).bind d (.metric s.accs.size), .ok "")
+          | "sgd" => (s.bind d (.opt Scalar.zero), .ok "")
+          | _ => (s, .bad))
+      | none => (s, .bad)
   | "relu", [] => match dst with | some d => (s.bind d (.act .relu), .ok "") | none => (s, .bad)
   | "sigmoid", [] => match dst with | some d => (s.bind d (.act .sigmoid), .ok "") | none => (s, .bad)
   | "tanh", [] => match dst with | some d => (s.bind d (.act .tanh), .ok "") | none => (s, .bad)
